@@ -100,7 +100,9 @@ class ValueAllocator:
 
         did_allocate = False
 
-        for val in vals:
+        # The same value may be given several times (e.g. a loop yielding its own block
+        # argument), it must only be replaced once
+        for val in dict.fromkeys(vals):
             if val.type != reg_type:
                 self._replace_value_with_new_type(val, reg_type)
                 did_allocate = True
